@@ -29,7 +29,8 @@ def check(report, tier, seed):
         progs.append((g.build(), gen.yo_image(rng, 10 * cycles + 30), g))
     # histories in which a built-in port is switched off after delivering data (its output must not go stale
     # under some options only), and register-file / bank activity
-    for mk in (histgen.mem_program, histgen.mem_program, histgen.regfile_program, lambda r: histgen.bank_program(r)[0]):
+    for mk in (lambda r: histgen.mem_program(r, False), lambda r: histgen.mem_program(r, False), lambda r: histgen.mem_program(r, False),
+               lambda r: histgen.mem_program(r, True), histgen.regfile_program, lambda r: histgen.bank_program(r)[0]):
         progs.append((mk(rng), gen.yo_image(rng, 10 * 12 + 30), None))
     # a decoder-like program marching over an image whose instruction bytes take EVERY value of the
     # first byte (all opcodes and function codes, valid or not): code that only runs under some
